@@ -28,7 +28,16 @@ vars == <<pc, node, trail, word, i, outs>>
 
 B(b) == IF b THEN "=T" ELSE "=F"
 
-Init == pc = "triv" /\ node = Leaf("none") /\ trail = <<>> /\ word = "none" /\ i = 0 /\ outs = <<>>
+Init == pc \in {"triv", "sym"} /\ node = Leaf("none") /\ trail = <<>> /\ word = "none" /\ i = 0 /\ outs = <<>>
+
+(* symmetrised space (:744-747 distance, :775-783 interpolate): path = dubins(from, to);         *)
+(* path2 = dubins(to, from); if (path2.length() < path.length()) { path2.reverse_ = true; path = path2; } *)
+(* abstract inputs: the words of the two directions and the outcome of the comparison            *)
+Sym(wf, wb, b) == /\ pc = "sym"
+                  /\ word' = IF b THEN wb ELSE wf
+                  /\ trail' = <<"sym", "rev" \o B(b), IF b THEN wb ELSE wf>>
+                  /\ pc' = "done"
+                  /\ UNCHANGED <<node, i, outs>>
 
 (* if (d < DUBINS_EPS && fabs(alpha - beta) < DUBINS_EPS) return {LSL, 0, d, 0}; *)
 Triv(b) == /\ pc = "triv"
@@ -71,12 +80,13 @@ Ex(b) == /\ pc = "ex"
 Next == \/ \E b \in BOOLEAN : Triv(b) \/ Long(b) \/ Walk(b) \/ Ex(b)
         \/ \E pa \in ReachablePos, pb \in ReachablePos : Classify(pa, pb)
         \/ AtLeaf
+        \/ \E wf \in Words, wb \in Words, b \in BOOLEAN : Sym(wf, wb, b)
 Spec == Init /\ [][Next]_vars
 
 Done == pc = "done"
 
 (* ----------------------------------------------------------------- invariants *)
-TypeOK == /\ pc \in {"triv", "long", "class", "tree", "ex", "done"}
+TypeOK == /\ pc \in {"triv", "sym", "long", "class", "tree", "ex", "done"}
           /\ word \in Words \cup {"none"}
           /\ i \in 0..6
 WordAmongSix == Done => word \in Words
@@ -88,7 +98,7 @@ ExhaustiveAgrees ==
     (Done /\ Len(trail) = 7)
     => word = ExhaustiveWord(outs)
 
-CaseJson == [k |-> "dcase", trail |-> trail, word |-> word]
+CaseJson == [k |-> IF trail[1] = "sym" THEN "scase" ELSE "dcase", trail |-> trail, word |-> word]
 EmitCase == Done => PrintT(ToJson(CaseJson))
 
 Dump == PrintT(ToJson([k |-> "edge", src |-> [pc |-> pc, trail |-> trail], dst |-> [pc |-> pc', trail |-> trail'],
